@@ -29,7 +29,11 @@ def recheck(sid, props):
     wt = f'/var/tmp/kevo-seed-{os.getpid()}'
     subprocess.run(['git', '-C', '/repo', 'worktree', 'add', '-q', '--detach', wt, 'HEAD'], check=True)
     try:
-        rc, out = sh(['git', 'apply', os.path.join(dst, 'patch.diff')], wt)
+        import glob
+        for pf in [os.path.join(dst, 'patch.diff')] + sorted(glob.glob(os.path.join(dst, 'patch_rebased_on_*.diff')), reverse=True):
+            rc, out = sh(['git', 'apply', pf], wt)
+            if not rc:
+                break
         if rc:
             print('patch no longer applies on HEAD:', out[-300:])
             return 1
